@@ -100,7 +100,7 @@ def genOp (a : Arr) (st : GS) (big : Bool) : Gen (Op × GS) := do
   let sz := a.size
   let lim := if big then 120 else 40
   let grow := if big then 40 else 7
-  let shrinkBias ← if sz > lim then chance 3 4 else pure false
+  let shrinkBias ← if sz > lim then chance (if big then 1 else 3) 4 else pure false
   let k ← if shrinkBias then (do return 100 + (← rnd 6)) else rnd 30
   let moveOnly := st.et == "M"
   match k with
@@ -154,6 +154,10 @@ def genOp (a : Arr) (st : GS) (big : Bool) : Gen (Op × GS) := do
     pickRef a st (.viewFill off len off2 len2)
   | _ =>
     if moveOnly then return (.shrinkToFit, st) else
+    if big && sz < st.mx && (← chance 1 3) then
+      -- fill up to max_size exactly: throws unless capacity()+n still fits (the growth test uses capacity)
+      let p ← rnd (sz + 1); let (vs, st) := freshList st (st.mx - sz); return (.insertRange p vs, st)
+    else
     let off ← rnd (sz + 1); let len ← rnd (sz - off + 1)
     let (vs, st) := freshList st len
     return (.viewAssign off vs, st)
@@ -211,10 +215,7 @@ operation reallocates (`realloc`) or shifts (`shift`).  Expected observation = s
 partial def genAlias (out : IO.FS.Stream) (et : String) (mx : Nat) (reallocOnly : Bool) (n : Nat) (g : SplitMix) : IO Unit := do
   let mut g := g
   let mut left := n
-  while left > 2 do
-    out.putStrLn s!"I new {et} {mx}"
-    out.putStrLn (obsTok emptyWorld)
-    left := left - 1
+  while left > 0 do
     -- build: sz elements, either exactly full or with spare capacity
     let (sz0, g1) := g.below 12; g := g1
     let sz := sz0 + 1
@@ -227,7 +228,6 @@ partial def genAlias (out : IO.FS.Stream) (et : String) (mx : Nat) (reallocOnly 
       else [.on 0 (.assignRange vs), .on 0 (.reserve (sz + 8))]
     for b in build do
       w := wstep mx w b
-      out.putStrLn (wopTok b); out.putStrLn (obsTok w); left := left - 1
     let a := w.get 0
     let (i, g1) := g.below sz; g := g1
     let (kind, g1) := g.below 4; g := g1
@@ -245,7 +245,9 @@ partial def genAlias (out : IO.FS.Stream) (et : String) (mx : Nat) (reallocOnly 
     if legal mx a op && !refOK a op then
       let r := step mx a w.log op               -- the model as the code is: gives the capacity
       let expect := spec (abs a) op             -- what a correct container holds afterwards
-      out.putStrLn (wopTok (.on 0 op))
+      -- one self-contained record: element type, max_size, the building operations, then the aliasing call
+      let segs := (build ++ [WOp.on 0 op]).foldl (fun s b => s ++ " | " ++ ((wopTok b).drop 2).toString) ""
+      out.putStrLn (s!"I seq {et} {mx}" ++ segs)
       out.putStrLn (s!"O obs 0 {expect.length}" ++ arrTok expect.length r.arr.cap expect ++ " | 0 0 | 0 0")
       -- commentary (not compared): what the transcribed algorithm does with the aliased reference
       out.putStrLn s!"# model-as-is: violations={r.log.viol - w.log.viol} contents={abs r.arr}"
